@@ -97,10 +97,11 @@ Record world : Type := mkW {
   w_st : tmodel -> tstate;                       (* model.state *)
   w_timers : list timer;                         (* every Timer object created so far, in creation order *)
   w_runner : tstate -> tmodel -> option nat;     (* state.runner[id(model)] : position in w_timers *)
-  w_tout : tstate -> nat                         (* state.timeout, an attribute that can be reassigned at run time *)
+  w_tout : tstate -> nat;                        (* state.timeout, an attribute that can be reassigned at run time *)
+  w_ot : tstate -> list ocb                      (* state.on_timeout, a list that can be changed / reassigned at run time *)
 }.
 Definition init_world (c : tcfg) (s0 : tstate) : world :=
-  mkW 0 (fun _ => s0) [] (fun _ _ => None) (timeout_of c).
+  mkW 0 (fun _ => s0) [] (fun _ _ => None) (timeout_of c) (fun s => ts_on_timeout (sdef c s)).
 
 Definition upd {A} (f : nat -> A) (k : nat) (v : A) : nat -> A :=
   fun x => if Nat.eqb x k then v else f x.
@@ -126,7 +127,7 @@ Definition start_running (t : timer) : timer := with_status t Running.
 Definition finish (t : timer) : timer :=
   match tm_status t with Running => with_status t Done | _ => t end.
 
-Definition set_timers (w : world) (l : list timer) : world := mkW (w_clock w) (w_st w) l (w_runner w) (w_tout w).
+Definition set_timers (w : world) (l : list timer) : world := mkW (w_clock w) (w_st w) l (w_runner w) (w_tout w) (w_ot w).
 
 (* ----------------------------------------------------------------- observations *)
 Inductive tres : Type := RFalse | RTrue | RMachine | RAttribute | ROut.   (* ROut: out of fuel *)
@@ -161,8 +162,8 @@ Definition set_and_start (c : tcfg) (w : world) (m : tmodel) (d : tstate) : list
    if Nat.ltb 0 (w_tout w d)                     (* self.timeout is read NOW; the timer keeps this period *)
    then mkW (w_clock w) st'
             (w_timers w ++ [mkTimer d m (w_clock w + w_tout w d) Pending])
-            (upd2 (w_runner w) d m (Some (length (w_timers w)))) (w_tout w)
-   else mkW (w_clock w) st' (w_timers w) (w_runner w) (w_tout w)).
+            (upd2 (w_runner w) d m (Some (length (w_timers w)))) (w_tout w) (w_ot w)
+   else mkW (w_clock w) st' (w_timers w) (w_runner w) (w_tout w) (w_ot w)).
 
 (* the state change without callbacks (what the local theorems speak about) *)
 Definition switch (c : tcfg) (w : world) (m : tmodel) (d : tstate) : list titem * world :=
@@ -342,7 +343,8 @@ Definition handler (c : tcfg) (w : world) (m : tmodel) (cbs : list ocb) : list t
 (* timer number i (record tm) calls its function: Timeout._process_timeout(event_data) *)
 Definition fire (c : tcfg) (w : world) (i : nat) (tm : timer) : list titem * world :=
   let w1 := set_timers w (upd_nth (w_timers w) i start_running) in
-  let '(its, w2) := handler c w1 (tm_model tm) (ts_on_timeout (sdef c (tm_state tm))) in
+  (* the handlers registered NOW, when the timer expires — not those of the time the state was entered *)
+  let '(its, w2) := handler c w1 (tm_model tm) (w_ot w (tm_state tm)) in
   (TFired (tm_model tm) (tm_state tm) (w_clock w) :: its,
    set_timers w2 (upd_nth (w_timers w2) i finish)).
 
@@ -362,7 +364,7 @@ Fixpoint fire_due (c : tcfg) (w : world) (idxs : list nat) : list titem * world 
 (* the clock moves to the next instant; the timers that exist now and are due then run in creation order
    (timers created meanwhile have a later deadline: timeouts are positive) *)
 Definition tick (c : tcfg) (w : world) : list titem * world :=
-  let w1 := mkW (S (w_clock w)) (w_st w) (w_timers w) (w_runner w) (w_tout w) in
+  let w1 := mkW (S (w_clock w)) (w_st w) (w_timers w) (w_runner w) (w_tout w) (w_ot w) in
   fire_due c w1 (seq 0 (length (w_timers w1))).
 
 Fixpoint advance (c : tcfg) (w : world) (dt : nat) : list titem * world :=
@@ -375,7 +377,10 @@ Fixpoint advance (c : tcfg) (w : world) (dt : nat) : list titem * world :=
 Inductive top : Type :=
 | HEvent (m : tmodel) (e : tevent)
 | HAdvance (dt : nat)
-| HSetTimeout (s : tstate) (v : nat).     (* reconfiguration at run time: state.timeout = v (0 switches it off) *)
+| HSetTimeout (s : tstate) (v : nat)      (* reconfiguration at run time: state.timeout = v (0 switches it off) *)
+| HSetHandlers (s : tstate) (l : list ocb).   (* state.on_timeout = l / cleared and refilled in place: the timer of a
+                                             stay was armed on entry whatever the list held then, and runs what it holds
+                                             at expiry *)
 
 (* one operation of the history: items, result of the call (events only), world *)
 Definition do_op (c : tcfg) (w : world) (o : top) : list titem * option tres * world :=
@@ -384,7 +389,9 @@ Definition do_op (c : tcfg) (w : world) (o : top) : list titem * option tres * w
   | HAdvance dt => let '(its, w') := advance c w dt in (its, None, w')
   | HSetTimeout s v =>
       ([TSetTimeout s v (w_clock w)], None,
-       mkW (w_clock w) (w_st w) (w_timers w) (w_runner w) (upd (w_tout w) s v))
+       mkW (w_clock w) (w_st w) (w_timers w) (w_runner w) (upd (w_tout w) s v) (w_ot w))
+  | HSetHandlers s l =>
+      ([], None, mkW (w_clock w) (w_st w) (w_timers w) (w_runner w) (w_tout w) (upd (w_ot w) s l))
   end.
 
 Fixpoint run (c : tcfg) (w : world) (h : list top) : list (list titem * option tres * world) :=
